@@ -748,10 +748,10 @@ func c09r5(c *core.Ctx) {
 	if ew := p.Func("hap", "(*Connection).EncryptedWrite"); ew != nil {
 		core.Instrs(ew, func(i ssa.Instruction) {
 			r, ok := i.(*ssa.Return)
-			if !ok || len(r.Results) != 2 {
+			if !ok || len(res(r)) != 2 {
 				return
 			}
-			for _, s := range core.Sources(r.Results[0]) {
+			for _, s := range core.Sources(res(r)[0]) {
 				if e, ok := s.(*ssa.Extract); ok {
 					if call, ok := e.Tuple.(*ssa.Call); ok && rawSocketWrite(call) {
 						if _, isParam := call.Call.Args[0].(*ssa.Parameter); !isParam {
